@@ -11,7 +11,7 @@ Content(n, p) == CASE p = 1 -> [i \in 1..n |-> (16 * p + i) % 256]
                    [] p = 3 -> [i \in 1..n |-> IF i = 1 THEN 1 ELSE IF i % 2 = 0 THEN 0 ELSE 128 + i]
                    [] p = 4 -> [i \in 1..n |-> (200 + 7 * i) % 256]
 VARIABLES n, p, done
-Init == n \in 0..MaxLen /\ p \in 1..(IF Mode = "access" THEN 3 ELSE 1) /\ done = FALSE
+Init == n \in 0..MaxLen /\ p \in 1..3 /\ done = FALSE
 VO(op, s, a, b, other, exp) == PrintT(ToJson([op |-> op, bytes |-> s, a |-> J(a), b |-> J(b), other |-> other, exp |-> exp]))
 V(op, s, a, b, exp) == VO(op, s, a, b, <<>>, exp)
 Access(s) ==
